@@ -76,6 +76,19 @@ def _strings(kyupy, lg, res, task):
         back = lg.mv_str(a)
         if str(back) != s:
             res.violation(f'C15/strings/mv_str/{s}', {'task': list(task)}, f'mv_str(mvarray({s!r})) = {back!r}')
+        # the returned array belongs to the caller: overwriting it must not change what the next conversion of the same string gives
+        try:
+            a[...] = 7 - a
+            again = lg.mvarray(s)
+            if not np.array_equal(again, exp) or again is a:
+                res.violation(f'C15/strings/mvarray-again/{s}', {'task': list(task)}, f'mvarray({s!r}) after the first result was overwritten in place = {again.tolist()} expected {exp.tolist()}')
+            bpa = lg.bparray(s)
+            bpa[...] = 0
+            if not np.array_equal(lg.bp_to_mv(lg.bparray(s))[:, 0], exp):
+                res.violation(f'C15/strings/bparray-again/{s}', {'task': list(task)}, f'bparray({s!r}) after the first result was zeroed in place decodes to {lg.bp_to_mv(lg.bparray(s)).tolist()}')
+            res.count('second_conversions')
+        except ValueError as ex:     # read-only result: also a change of contract
+            res.violation(f'C15/strings/mvarray-readonly/{s}', {'task': list(task)}, f'result of mvarray/bparray is not writable: {ex}')
         if 2 <= L <= 3:
             # as one pattern among two: axis convention (signals second-to-last, patterns last)
             s2 = s[::-1]
